@@ -418,6 +418,8 @@ class Scheduler:
         self.thread_errors = []
         self.yield_on_release = yield_on_release
         self.seq = 0
+        self.clock_eps = 0.0
+        self.clock_reads = 0
 
     # ---- helpers -------------------------------------------------------------------------------------------
     def me(self):
@@ -705,17 +707,26 @@ def _v_sleep(secs):
     s.sleep(me, secs)
 
 
+def _v_now(s):
+    # optional clock drift: every read of the clock is a hair later than the previous one (time elapses between
+    # statements), so that `deadline - now()` is slightly NEGATIVE at the deadline instead of exactly 0
+    if s.clock_eps:
+        s.clock_reads += 1
+        return s.now + s.clock_reads * s.clock_eps
+    return s.now
+
+
 def _v_monotonic():
     s = _SCHED
     if s is not None and _get_ident() in s.threads:
-        return s.now
+        return _v_now(s)
     return _real_monotonic()
 
 
 def _v_perf_counter():
     s = _SCHED
     if s is not None and _get_ident() in s.threads:
-        return s.now
+        return _v_now(s)
     return _real_perf_counter()
 
 
@@ -810,7 +821,7 @@ def now():
 
 
 def run(fn, strategy, *, max_steps=200000, lag=0.0, line_files=(), on_step=None, max_idle_vtime=500.0,
-        stall_timeout=60.0, name='root', drain=True):
+        stall_timeout=60.0, name='root', drain=True, clock_eps=0.0):
     """Run `fn()` in a controlled root thread under `strategy`; returns a Result.
 
     After `fn` returns, remaining controlled threads keep being scheduled until all are done (status ok), or they
@@ -822,6 +833,7 @@ def run(fn, strategy, *, max_steps=200000, lag=0.0, line_files=(), on_step=None,
     assert _SCHED is None or _SCHED.finished
     s = Scheduler(strategy, max_steps=max_steps, lag=lag, line_files=line_files, on_step=on_step,
                   max_idle_vtime=max_idle_vtime)
+    s.clock_eps = clock_eps
     res = s.result
     root_ts = TState(0, name)
     s.root = root_ts
